@@ -446,6 +446,91 @@ func c08(c *Ctx) {
 		// leaf position: n = size()+1, and the leaf digest is what is returned
 		c.check(len(sites(f, callTo(ahT+"size"))) > 0, r, fnName(f)+":position-from-size", c.pos(f.Pos()), "n = size()+1", "Append no longer derives the position from size()")
 	}
+
+	// ---- C08.4 one tree state per proof ---------------------------------------------------------------------------
+	// a proof or a root is assembled from several digest reads; rollback + re-append rewrites digests in place, so all
+	// reads of one proof must see one tree: the logs, sizes and caches are touched only under the tree mutex, and the
+	// unexported walkers are entered with it held
+	ahGuard := guardSpec{
+		structName: "AHtree",
+		lock:       "AHtree.mutex",
+		fields:     []string{"pLog", "dLog", "cLog", "pLogSize", "dLogSize", "cLogSize", "pCache", "dCache", "closed"},
+		callerHolds: map[string]string{
+			ahT + "node": "W", ahT + "nodeAt": "W", ahT + "inclusionProof": "W", ahT + "consistencyProof": "W",
+			ahT + "highestNode": "W", ahT + "size": "W", ahT + "rootAt": "W", ahT + "sync": "W",
+		},
+		exempt: map[string]string{
+			"embedded/ahtree.OpenWith": "constructor: the tree is not shared yet",
+			"embedded/ahtree.Open":     "constructor: the tree is not shared yet",
+		},
+	}
+	c.ruleGuarded("C08.4/tree-lockset", []string{"embedded/ahtree"}, ahGuard)
+	c.ruleCallerHolds("C08.4/caller-holds", []string{"embedded/ahtree"}, ahGuard)
+	if c.Analysed["guarded_accesses_AHtree"] < 40 {
+		c.undecided("C08.4/tree-lockset", "floor", fmt.Sprintf("%d guarded accesses of AHtree state found", c.Analysed["guarded_accesses_AHtree"]))
+	}
+
+	// ---- C08.5 cache eviction hand follows removals -----------------------------------------------------------------
+	// the digest and payload caches are invalidated by Pop on rollback; the eviction hand is a pointer into the order
+	// list, so whoever removes an element either moves the hand off it first or has compared the hand with it
+	c08CacheHand(c, "C08.5/eviction-hand-follows-removal")
+}
+
+func c08CacheHand(c *Ctx, r string) {
+	n := 0
+	for _, fn := range c.allFns {
+		if !fnInPkgs(fn, []string{"embedded/cache"}) || len(fn.Blocks) == 0 {
+			continue
+		}
+		for _, in := range sites(fn, callTo("container/list.(*List).Remove")) {
+			cc := callOf(in)
+			if lf, _ := fieldOf(recvOf(cc)); lf != "Cache.list" || len(cc.Args) < 2 {
+				continue
+			}
+			n++
+			el := desc(cc.Args[1])
+			handled := false
+			why := ""
+			allInstrs(fn, false, func(x ssa.Instruction) {
+				if handled || !instrDominates(x, in) {
+					return
+				}
+				switch y := x.(type) {
+				case *ssa.Store:
+					// c.hand = el.Prev()
+					if f, _ := fieldOf(y.Addr); f == "Cache.hand" {
+						if pc, ok := y.Val.(*ssa.Call); ok && calleeName(&pc.Call) == "container/list.(*Element).Prev" && desc(pc.Call.Args[0]) == el {
+							handled, why = true, "hand moved to "+el+".Prev() before the removal"
+						}
+					}
+				case *ssa.If:
+					// if c.hand == el { … }
+					if bo, ok := y.Cond.(*ssa.BinOp); ok && (bo.Op == token.EQL || bo.Op == token.NEQ) {
+						dx, dy := desc(bo.X), desc(bo.Y)
+						isHand := func(d string) bool { return hasFieldSuffix(d, "hand") }
+						if (isHand(dx) && dy == el) || (isHand(dy) && dx == el) {
+							// the branch taken when they are equal stores a new hand
+							moved := false
+							allInstrs(fn, false, func(z ssa.Instruction) {
+								if st, ok := z.(*ssa.Store); ok {
+									if f, _ := fieldOf(st.Addr); f == "Cache.hand" && instrDominates(y, z) {
+										moved = true
+									}
+								}
+							})
+							if moved {
+								handled, why = true, "hand compared with "+el+" and moved when equal"
+							}
+						}
+					}
+				}
+			})
+			c.check(handled, r, fmt.Sprintf("%s:list.Remove#%d", fnName(fn), n), c.pos(in.Pos()), why, "element "+el+" is unlinked from the order list while the eviction hand may still point at it: the next eviction walks from a removed element")
+		}
+	}
+	if n < 2 {
+		c.undecided(r, "floor", fmt.Sprintf("%d removals from the cache order list found (evict, pop confirmed by hand)", n))
+	}
 }
 
 // errEdges: the edges taken when the error of any call matching p in fn is non-nil.
